@@ -3,7 +3,7 @@
 import json, subprocess, sys, os
 base = json.load(open('/root/.vp/BASELINE.json'))
 env = dict(os.environ, GOFLAGS='-mod=mod', GOPROXY='off')
-p = subprocess.run('go test -mod=mod -json -vet=off -count=1 -timeout 25m ./...', shell=True, cwd='/repo', env=env, capture_output=True, text=True)
+p = subprocess.run('go test -mod=mod -json -vet=off -count=1 -timeout 25m ./...', shell=True, cwd=(sys.argv[1] if len(sys.argv)>1 else '/repo'), env=env, capture_output=True, text=True)
 passed = set()
 for line in p.stdout.splitlines():
     try:
